@@ -86,11 +86,11 @@ Proof.
 Qed.
 
 (* ------------------------------------------------------------ shape of a good configuration *)
-Lemma good_cfg_shape c : good_cfg c = true -> exists n, c = mkCfg (S n) true true false false.
+Lemma good_cfg_shape c : good_cfg c = true -> exists n, c = mkCfg (S n) true true false false true true.
 Proof.
-  destruct c as [cap nb tr sn pr]. unfold good_cfg; cbn.
+  destruct c as [cap nb tr sn pr sf ip]. unfold good_cfg; cbn.
   destruct cap; cbn; [discriminate|].
-  destruct nb, tr, sn, pr; cbn; try discriminate. intros _. now exists cap.
+  destruct nb, tr, sn, pr, sf, ip; cbn; try discriminate. intros _. now exists cap.
 Qed.
 
 Lemma run_app c s a b : run c s (a ++ b) = run c (run c s a) b.
@@ -126,7 +126,7 @@ Ltac same T P R := (split; [exact T | split; [exact P | exact R]]).
 Ltac inv_some := match goal with H : Some _ = Some _ |- _ => inversion H; subst; clear H end.
 
 Lemma step_inv n evs s e :
-  let c := mkCfg (S n) true true false false in
+  let c := mkCfg (S n) true true false false true true in
   Inv evs s -> Inv (evs ++ [e]) (step c s e).
 Proof.
   intros c (T & P & R). apply (InvR_mono _ e) in R.
@@ -211,6 +211,7 @@ Proof.
     destruct (w_stat w) eqn:WS; try (same T P R).
     destruct (w_tok w) as [|t] eqn:WT; [same T P R|].
     destruct (w_resp w) as [b|] eqn:WR; [|same T P R].
+    cbn [c_store_first c negb andb].
     split; [|split; [exact P|]].
     + intros id o L. cbn [table setw set_table add_premove park] in L. destruct (T id o L) as (k' & w' & -> & G' & I & E & D).
       destruct (N.eq_dec k' k) as [->|NK].
@@ -336,8 +337,9 @@ Proof.
   - destruct (getw k1 s) as [w1|] eqn:G1; [|now rewrite G].
     destruct (w_stat w1) eqn:S1; try now rewrite G.
     destruct (w_tok w1); [now rewrite G|]. destruct (w_resp w1); [|now rewrite G].
-    rewrite getw_setw. destruct (N.eqb k k1) eqn:E; [|now rewrite G].
-    apply N.eqb_eq in E. subst k1. congruence.
+    destruct (negb (c_store_first c) && existsb (Z.eqb (w_id w1)) (premoves s));
+      (rewrite getw_setw; destruct (N.eqb k k1) eqn:E; [|now rewrite G];
+       apply N.eqb_eq in E; subst k1; congruence).
   - destruct (getw k1 s) as [w1|] eqn:G1; [|now rewrite G].
     destruct (w_stat w1) eqn:S1; try now rewrite G.
     assert (k1 <> k) by (intros ->; congruence).
@@ -388,7 +390,7 @@ Proof.
   intros G s LV FR. destruct (good_cfg_shape c G) as [n ->].
   cbn [run fold_left]. 
   set (id := id_of (ctr s + 1)).
-  assert (S1 : step (mkCfg (S n) true true false false) s (ESend k false) =
+  assert (S1 : step (mkCfg (S n) true true false false true true) s (ESend k false) =
      setw k (mkW (ctr s + 1) id None 0 Waiting)
           (set_table (aupsert Z.eqb id (OWaiter k) (table s))
              (mkSt (ctr s + 1) (hbc s) (live s) (table s) (waiters s) (premoves s) (parked s)))).
@@ -397,7 +399,7 @@ Proof.
   set (s1 := setw k _ _).
   assert (L1 : alookup Z.eqb id (table s1) = Some (OWaiter k)) by (subst s1; cbn [table setw set_table]; apply tl_up_eq).
   assert (G1 : getw k s1 = Some (mkW (ctr s + 1) id None 0 Waiting)) by (subst s1; apply getw_setw_eq).
-  assert (S2 : step (mkCfg (S n) true true false false) s1 (EDeliver id b) =
+  assert (S2 : step (mkCfg (S n) true true false false true true) s1 (EDeliver id b) =
      add_premove id (setw k (mkW (ctr s + 1) id (Some b) 1 Waiting) s1)).
   { cbn [step]. rewrite L1, G1. unfold signal. cbn. reflexivity. }
   rewrite S2. clear S2.
@@ -449,7 +451,8 @@ Proof.
   - destruct (getw k1 s) as [w1|] eqn:G1; [|eauto].
     destruct (w_stat w1) eqn:S1; eauto.
     destruct (w_tok w1); eauto. destruct (w_resp w1); eauto.
-    apply SW; auto. cbn. intros ->. rewrite G in G1. inversion G1. auto.
+    destruct (negb (c_store_first c) && existsb (Z.eqb (w_id w1)) (premoves s));
+      (apply SW; auto; cbn; intros ->; rewrite G in G1; inversion G1; auto).
   - destruct (getw k1 s) as [w1|] eqn:G1; [|eauto].
     destruct (w_stat w1) eqn:S1; eauto.
     destruct (c_tmo_removes c); unfold set_table; cbn -[getw setw];
@@ -494,7 +497,7 @@ Proof.
 Qed.
 
 Lemma step_invN n evs c0 len s e :
-  let c := mkCfg (S n) true true false false in
+  let c := mkCfg (S n) true true false false true true in
   Inv evs s -> InvN c0 len s -> (len < two32)%N -> InvN c0 (len + 1) (step c s e).
 Proof.
   intros c (T & _ & _) HN LEN.
@@ -589,6 +592,7 @@ Proof.
     destruct (w_stat w) eqn:WS; try exact SAME.
     destruct (w_tok w) as [|t] eqn:WT; [exact SAME|].
     destruct (w_resp w) as [b|] eqn:WR; [|exact SAME].
+    cbn [c_store_first c negb andb].
     unfold InvN, getw, setw. cbn [ctr table waiters premoves].
     split; [lia|]. split; [lia|]. split; [|split; [|split]].
     + intros k' w' G'. destruct (N.eq_dec k' k) as [->|NK].
@@ -647,7 +651,7 @@ Proof.
   - rewrite run_snoc. rewrite app_length in *. cbn [length] in *.
     replace (N.of_nat (length evs + 1)) with (N.of_nat (length evs) + 1)%N by lia.
     subst c. eapply step_invN.
-    + apply (run_inv (mkCfg (S n) true true false false) c0 h0 lv evs G).
+    + apply (run_inv (mkCfg (S n) true true false false true true) c0 h0 lv evs G).
     + apply IH. lia.
     + lia.
 Qed.
@@ -691,7 +695,7 @@ Proof.
   destruct AFTER as (w1 & G1 & S1 & I1 & t & b1 & T1 & R1).
   exists b1. cbn [run fold_left]. split.
   - set (s1 := step c s (EDeliver (w_id w) b)) in *. clearbody s1.
-    cbn [step]. rewrite G1, S1, T1, R1. unfold stat_of. now rewrite getw_setw_eq.
+    rewrite E. cbn [step]. rewrite G1, S1, T1, R1. cbn [c_store_first negb andb]. unfold stat_of. now rewrite getw_setw_eq.
   - pose proof (run_inv c c0 h0 lv (evs ++ [EDeliver (w_id w) b]) G) as (_ & _ & R').
     rewrite run_snoc in R'. fold s in R'. destruct (R' _ _ G1) as (A & _ & _).
     specialize (A b1 R1). rewrite I1 in A. exact A.
@@ -717,4 +721,11 @@ Proof. vm_compute. split; reflexivity. Qed.
 Example fixed_is_good : good_cfg fixed_cfg = true.
 Proof. reflexivity. Qed.
 Example pinned_is_not_good : good_cfg pinned_cfg = false.
+Proof. reflexivity. Qed.
+
+(* with the payload written after the signal the waiter can return without its reply *)
+Example store_after_returns_nil :
+  stat_of 1 (run store_after_cfg (init 0 0 true) [ESend 1 false; EDeliver 1 7; EWake 1; ERemove 1]) = Some (DoneErr 4).
+Proof. vm_compute. reflexivity. Qed.
+Example store_after_is_not_good : good_cfg store_after_cfg = false.
 Proof. reflexivity. Qed.
